@@ -15,6 +15,7 @@ from ..seams import World, ModelHarness
 from .common import sample_constraints, decorate, exc_site, is_harness_frame, quiet
 
 PROPERTY = "C12"
+KEY_EVENT = "STEP"
 RULE = ("one run = one seeded call history (<= 10 ops from fit, fit_predict, predict, predict_proba, score, path, set_params, "
         "get/set round trip, clone, rejected fits, fits/paths crashed at a simulator-chosen point) on one estimator of a "
         "sampled family (all 18) over a pool of 3 datasets; non-trivial = at least one fit/path was judged after >= 1 earlier "
